@@ -38,6 +38,7 @@ use crate::{
 use core::cmp::Eq;
 use core::str::FromStr;
 pub use gregorian::is_gregorian_valid;
+pub(crate) use gregorian::is_leap_year;
 use snafu::ResultExt;
 
 #[cfg(not(kani))]
